@@ -154,6 +154,28 @@ fn sched(rest: &str) -> String {
     }
 }
 
+fn cpr(rest: &str) -> String {
+    // cpr <first: e|o> <lat> <lon> <second: e|o> <lat> <lon>
+    let v: Vec<&str> = rest.split_whitespace().collect();
+    if v.len() != 6 {
+        return "{\"error\":\"usage\"}".to_string();
+    }
+    let mk = |p: &str, lat: &str, lon: &str| adsb_deku::Altitude {
+        odd_flag: if p == "o" { adsb_deku::CPRFormat::Odd } else { adsb_deku::CPRFormat::Even },
+        lat_cpr: lat.parse().unwrap(),
+        lon_cpr: lon.parse().unwrap(),
+        ..Default::default()
+    };
+    let a = mk(v[0], v[1], v[2]);
+    let b = mk(v[3], v[4], v[5]);
+    let r = panic::catch_unwind(|| adsb_deku::cpr::get_position((&a, &b)));
+    match r {
+        Ok(Some(p)) => format!("{{\"some\":true,\"lat\":{:?},\"lon\":{:?}}}", p.latitude, p.longitude),
+        Ok(None) => "{\"some\":false}".to_string(),
+        Err(e) => format!("{{\"panic\":\"{}\"}}", esc(&panic_msg(e))),
+    }
+}
+
 fn main() {
     panic::set_hook(Box::new(|_| {}));
     let stdin = std::io::stdin();
@@ -172,6 +194,7 @@ fn main() {
         let resp = match cmd {
             "decode" => decode(rest),
             "sched" => sched(rest),
+            "cpr" => cpr(rest),
             _ => format!("{{\"error\":\"unknown command {}\"}}", esc(cmd)),
         };
         writeln!(out, "{resp}").unwrap();
